@@ -7,6 +7,12 @@ VERIF = os.path.dirname(os.path.dirname(os.path.abspath(__file__)))
 ALL = [f"C{i:02d}" for i in range(1, 21)]
 
 CLAIMS = {
+    "C14": dict(
+        text="PARTIAL proof + correspondence. Proved in Coq (unbounded): the 15-bit digit codec of dump_long/load_long - for every non-negative integer the emitted digits denote it, each is a legal marshal digit and the top digit is non-zero (what marshal.c's reader demands). The whole-tree round trip is decided by correspondence only: Model.Marsh.dumps (hand model incl. chunk-to-bytes assembly) vs xdis.marsh.dumps byte for byte; the host's real marshal.loads of those bytes gives back the value (kind and content); xdis.marsh.loads of the host's marshal.dumps(v, 0|1) gives back the value and equals the shared reader model under marsh_cfg. Not yet a theorem: reader(dumps v) = v for all value trees (planned via the C10 reader).",
+        note="Trusted: Coq kernel; hand model coq/Model/Marsh.v; harness value generator (ints to 2^450, inf/-0.0/subnormal floats, Latin-1/BMP/astral/lone-surrogate text, 300-item containers, None keys); repr(float)/float(str) are taken from the host. NaN payloads are outside (text floats cannot carry them). Hosts 3.8-3.13 in the thorough tier, 3.12 in quick.",
+        technique="Coq proof of the integer codec + differential correspondence against the host marshal",
+        design="7/C14",
+    ),
     "C01": dict(
         text="Machine-checked Coq proof (C01_load, by the simulation theorem of C10): for every magic and every payload, whenever CPython's marshal reader of the bytecode's version returns a code-object tree, xdis's reader returns the same tree (all integer fields per the version's layout, code, constants recursively, names, var/free/cell names, filename, name, qualname, first line, line table, exception table) and consumes exactly the same bytes; plus the 3.11+ localsplus split = CPython's three filters. Model tied to load_code by in-Coq correspondence on the corpus (1.0-3.12, PyPy) and on sources/stdlib compiled by each installed interpreter.",
         note="Trusted: Coq kernel; the single parametrised reader coq/Model/Unmarshal.v (strict = CPython, permissive = xdis) + correspondence on both instantiations: xdis side vs load_code, CPython side vs marshal.loads of the installed 2.7, 3.6-3.13 on their own code objects; magics/dispatch translators; canonical observation (tools/harness/ops_marshal.py). Versions without an interpreter here rest on the transcription. Text payloads assumed valid UTF-8; 2.0 layout undecided; Dropbox/Graal bodies not modelled. No axioms.",
